@@ -132,8 +132,8 @@ PROPS = {
                       "accepted since the last Reset and its chunk invariant - every chunk but the last full - holds throughout); streaming_faithful_all_histories and "
                       "streaming_dynamic_faithful_all_histories (Props/C09.lean: Add, unreadable Add, Flush, Reset, SetMetadata, Resolve, Info in any order, under every script of "
                       "write results: complete writes ++ pending = the documents accepted and not discarded by a Reset, once each and in order).",
-        "level_note": "The dynamic (non-streaming) collector is a composition of batch collectors (one-step laws in C08, Add histories in C08's dynamic_batches_have_one_schema); its "
-                      "histories with Reset/SetMetadata interleaved and wrapper stacking are covered by the "
+        "level_note": "The dynamic (non-streaming) collector over whole histories is C08.dynamic_faithful_all_histories (Props/C08.lean: one batch collector per schema run, together exactly the "
+                      "documents accepted since the last Reset, for every history of Add, unreadable Add, Reset, SetMetadata, Resolve, Info). Wrapper stacking is covered by the "
                       "correspondence run, not by a composed theorem. The sampling collector depends on "
                       "the wall clock and is not modelled.",
         "assumptions": ["chunk size N >= 1"],
@@ -145,7 +145,7 @@ PROPS = {
                 "sequences; GENERATED schema pairs: a random schema tree and the same tree after one structural edit (hoist the last leaf of a sub-document behind it, sink, rename, "
                 "swap, wrap, unwrap, retype, add, remove, metric -> non-metric) in alternating patterns through the schema-aware collectors. Oracle: schema-aware collectors accept everything and decode to the input; others never store a sample under another metric "
                 "count/type; chunk boundaries only at change points and capacity. Distinct = distinct history line.",
-        "level_text": "Theorems (Props/C08.lean): streaming_dynamic_chunk_boundaries and dynamic_chunk_boundaries - for ANY sequence of runs of documents (one schema inside a run, "
+        "level_text": "dynamic_faithful_all_histories: for EVERY history of Add, unreadable Add, Reset, SetMetadata, Resolve and Info on the dynamic collector there is a grouping of the documents accepted since the last Reset into runs of one schema key such that batch collector i holds exactly run i (invariant GD carried through Reset and SetMetadata). Theorems (Props/C08.lean): streaming_dynamic_chunk_boundaries and dynamic_chunk_boundaries - for ANY sequence of runs of documents (one schema inside a run, "
                       "consecutive runs with different schema keys) and every chunk size, the chunks written plus the pending one (resp. the batch collectors' Resolve output) are, run by "
                       "run, each run cut exactly at capacity: a new chunk at each change point and otherwise only at capacity, nothing lost or reordered (C01's ..._any_schemas theorems "
                       "add that every such chunk decodes to exactly its documents). schema_key_injective — equal hash input implies equal lists of full metric keys for all documents with C-string "
